@@ -40,11 +40,11 @@ def cases():
     """The fixed placement universe (independent of the seed)."""
     out = []
 
-    def add(name, ws, inputs, force=True, setup=(), cwd=".", flags=(), pre_ws=None):
+    def add(name, ws, inputs, force=True, setup=(), cwd=".", flags=(), pre_ws=None, lang="python"):
         s = std_tree() + list(setup)
         if pre_ws:
             s += prepop(pre_ws)
-        out.append(dict(name=name, ws=ws, inputs=list(inputs), force=force, setup=s, cwd=cwd, flags=list(flags)))
+        out.append(dict(name=name, ws=ws, inputs=list(inputs), force=force, setup=s, cwd=cwd, flags=list(flags), lang=lang))
 
     for force in (True, False):
         f = "f" if force else "n"
@@ -88,6 +88,17 @@ def cases():
         add("trailing_slash_" + f, "{B}/ws/", ["{B}/in/"], force)
         add("dot_input_" + f, "{B}/ws", ["."], force, cwd="in")
         add("dot_input_ws_inside_" + f, "wsdir", ["."], force, cwd="in")
+        # flags that change what is copied and where derived files are written: header pre-processing of C inputs, strict parse mode
+        cproj = [("d", "cproj"), ("d", "cproj/inc"), ("f", "cproj/m.c", '#include "inc/u.h"\nint main() {\n    int x = U;\n    return x;\n}\n'),
+                 ("f", "cproj/inc/u.h", "#define U 1\nint helper(int a);\n")]
+        add("c_headers_" + f, "{B}/ws", ["{B}/cproj"], force, setup=cproj, flags=["-I"], lang="c")
+        add("c_headers_strict_" + f, "{B}/ws", ["{B}/cproj"], force, setup=cproj, flags=["-I", "--strict-parse-mode"], lang="c")
+        add("c_strict_" + f, "{B}/ws", ["{B}/cproj"], force, setup=cproj, flags=["--strict-parse-mode"], lang="c")
+        add("strict_" + f, "{B}/ws", ["{B}/in"], force, flags=["--strict-parse-mode"])
+        # two inputs: a directory that contains the workspace, and a directory inside that workspace (left there by an earlier run)
+        add("input_inside_ws_inside_other_input_" + f, "{B}/proj2/out", ["{B}/proj2", "{B}/proj2/out/" + DEFAULT + "/src/other"], force,
+            setup=[("d", "proj2"), ("f", "proj2/p.py", "p = 1\n"), ("d", "proj2/out"), ("d", "proj2/out/" + DEFAULT), ("d", "proj2/out/" + DEFAULT + "/src"),
+                   ("d", "proj2/out/" + DEFAULT + "/src/other"), ("f", "proj2/out/" + DEFAULT + "/src/other/o.py", "o = 2\n")])
         add("nested_dirs_" + f, "{B}/ws", ["{B}/deep"], force,
             setup=[("d", "deep/a/b/c"), ("f", "deep/a/b/c/d.py", "d = 4\n"), ("f", "deep/a/top.py", "t = 1\n"), ("d", "deep/empty")])
     return out
@@ -233,7 +244,7 @@ def run_case(case, root):
     pre = snapshot(base)
     jobdir = os.path.join(root, "_jobs", case["name"])
     os.makedirs(jobdir, exist_ok=True)
-    job = dict(cmd="lang", lang="python", in_paths=[fmt(x) for x in case["inputs"]], dir=jobdir, force=case["force"],
+    job = dict(cmd="lang", lang=case.get("lang", "python"), in_paths=[fmt(x) for x in case["inputs"]], dir=jobdir, force=case["force"],
                flags=case["flags"], export=[], keep_ws=True, markers=True, out=os.path.join(jobdir, "result.json"))
     if case["ws"] is not None:
         job["workspace"] = fmt(case["ws"])
@@ -290,7 +301,7 @@ def run_case(case, root):
         "pre": [{"p": rel.split(os.sep), "k": pre[rel][0]} for rel in sorted(pre)],
         "events": events, "changed": changed, "created": created,
         "n_pre": len(pre), "n_post": len(post), "wall_s": round(wall, 2),
-        "truncated": "__truncated__" in post,
+        "truncated": "__truncated__" in post, "copy_factor": 3 if "-I" in case["flags"] else 1,
         "console": (res.get("console", "") + res.get("stderr", ""))[-400:],
     }
     shutil.rmtree(base, ignore_errors=True)
